@@ -850,6 +850,12 @@ fn corpus() -> Vec<(&'static str, Scenario, Vec<Label>)> {
             Scenario { flush_rows: 2, flush_bytes: big, max_bytes: big, max_segment: 1, writers: vec![vec![b(0, &[1]), b(0, &[2]), b(0, &[3, 4])]] },
             parse_sched("W0 W0 W0 W0 W0 W0 W0b W0 W0 W0 W0 W0 W0 W0 W0 W0 K R"),
         ),
+        // a zero-row batch is acknowledged without a WAL entry; crash and recovery around it
+        (
+            "zero-row-write",
+            Scenario { flush_rows: 3, flush_bytes: big, max_bytes: big, max_segment: 64 << 20, writers: vec![vec![b(0, &[1]), b(0, &[]), b(0, &[2, 3])]] },
+            parse_sched("W0 W0 W0 W0 K R W0 W0 W0 W0 W0 W0 W0 W0 W0 W0 X"),
+        ),
         // crash between register and persist, restart, crash during recovery, restart: duplicates, no loss
         (
             "crash-restart-crash",
